@@ -1,5 +1,31 @@
 /-
-  C17 — the REGENERATED model of the stroked line equals the hand-written one.
+  C17 — the REGENERATED model of the stroked line (`ParallelsIterator`, `ThickPoints`) equals the hand-written one.
+
+  `EG/Generated/ThickSrc.lean` is written by `tools/tr_linesrc.py` from /repo's src/primitives/line/thick_points.rs on
+  every run of a check: `ParallelsIterator::next_parallel` (its `loop`, the `&mut i32` alias `error` chosen by
+  `match side`, the calls of `increase_error` / `decrease_error` through it), `ParallelsIterator::new` (the `i64`
+  thickness threshold `(i64::from(thickness) * 2).pow(2) * i64::from(length_squared)`, the accumulator start, `flip`,
+  the skipped centre line), its `Iterator::next` (the test `i64::from(acc).pow(2) > threshold`, the accumulator update per
+  `Normal` / `Extra` parallel, the side swap), `ThickPoints::new`, its `Iterator::next` (`loop`, `?`), the constant
+  `HORIZONTAL_LINE`, `LineSide::swap`, `PointExt::length_squared`. A function that contains a `loop` or calls one takes
+  `fuel` and returns `Option` (`none` = out of fuel), exactly like the hand model EG/Model/ThickLine.lean.
+
+  This file proves each generated definition equal to the hand model: `next_parallel_src_eq_model` for EVERY fuel,
+  the others at the hand model's loop bound `loopFuel` (the fuel the hand model itself uses; `thick_points_total` says it
+  is never exhausted), then that the collected pixel list is the model's `Thick.thickPoints`
+  (`thick_points_src_eq_model`), and restates C17's stroked-line theorems over the regenerated functions (`src_thick_*`,
+  `src_next_adds_one_step`, `src_skipped_step_not_counted`: the mechanism of the known finding read off the source).
+
+  Proof pattern for a loop: the generated `while_loop fuel (fun _ => true) body` is compared with the hand model's
+  recursion through ONE-ITERATION functions written here in the model's vocabulary (`npStep`, `tpStep`):
+  `while_loop_congr` (the body only matters pointwise) + `body = step` by unfolding + `step`-loop = model recursion by
+  induction on the fuel.
+
+  Where the two differ (stated exactly):
+  * `x.pow(2)` is `x ^ 2` in the prelude and `x * x` in the hand model (`int_sq`); `/ 2` is `Int.tdiv` vs `tdiv2`.
+  * Rust's `ThickPoints::next` returns `(None, self)` where the hand model's `nextFuel` returns `some none` (`tpView`).
+  * `StyledPixelsIterator::new` (styled.rs: nothing for width 0, `stroke_width.saturating_as()`) is NOT regenerated;
+    `srcThickPoints` transcribes it as the hand model does.
 -/
 import EG.Generated.ThickSrc
 import EG.Props.C17.GeneratedLine
@@ -215,5 +241,207 @@ theorem ThickPoints_new_src_eq_model (l : Line) (t : Int) :
   simp only [ParallelsIterator_new_src_eq_model, Bresenham_new_src_eq_model, major_length_src_eq_model]
   thick_simp []
   cases ParallelsIterator.new l t Thick.StrokeOffset.none <;> rfl
+
+/-- One iteration of the `loop` of `ThickPoints::next`, in the hand model's vocabulary (`nextFuel` with the recursive call
+replaced by `continue`). -/
+def tpStep (s : ThickPointsIt) : LoopStep ThickPointsIt (Option (Option Pt × ThickPointsIt)) :=
+  if s.parallelPointsRemaining > 0 then
+    .return_ (some (some (s.parallel.next s.iter.parallelParameters).1,
+      { s with parallelPointsRemaining := s.parallelPointsRemaining - 1,
+               parallel := (s.parallel.next s.iter.parallelParameters).2 }))
+  else
+    match s.iter.next with
+    | none => .return_ none
+    | some (none, iter) => .return_ (some (none, { s with iter := iter }))
+    | some (some (parallel, lineType), iter) =>
+      .continue_ { s with parallel := parallel,
+                          parallelPointsRemaining :=
+                            if lineType = .extra then s.parallelLength - 1 else s.parallelLength,
+                          iter := iter }
+
+/-- What one call of `ThickPoints::next` shows to the caller, in the hand model's vocabulary. -/
+def tpView (r : Option (Option Pt × ThickPointsIt)) : Option (Option (Pt × ThickPointsIt)) :=
+  r.map (fun x => x.1.map (fun p => (p, x.2)))
+
+theorem nextFuel_succ (n : Nat) (s : ThickPointsIt) :
+    s.nextFuel (n + 1) =
+      (match tpStep s with
+       | LoopStep.return_ r => tpView r
+       | LoopStep.continue_ s' => s'.nextFuel n) := by
+  conv => lhs; unfold ThickPointsIt.nextFuel
+  unfold tpStep
+  by_cases h : s.parallelPointsRemaining > 0
+  · simp only [h, ↓reduceIte, tpView, Option.map_some]
+  · simp only [h, ↓reduceIte]
+    cases hx : s.iter.next with
+    | none => rfl
+    | some r =>
+      obtain ⟨v, iter⟩ := r
+      cases v with
+      | none => rfl
+      | some q => rfl
+
+theorem tpStep_loop : ∀ (n : Nat) (s : ThickPointsIt),
+    tpView (match while_loop n (fun _ => true) tpStep s with
+      | Option.none => Option.none
+      | Option.some (LoopStep.return_ r) => r
+      | Option.some (LoopStep.continue_ _) => Option.none) = s.nextFuel n := by
+  intro n
+  induction n with
+  | zero => intro s; rfl
+  | succ n ih =>
+    intro s
+    unfold while_loop
+    simp only [↓reduceIte]
+    rw [nextFuel_succ]
+    cases hs : tpStep s with
+    | return_ r => rfl
+    | continue_ s' => exact ih s'
+
+set_option linter.unusedSimpArgs false in
+/-- **`Iterator::next` of `ThickPoints` (regenerated, `loop` on fuel, `?` on the parallels iterator) = the hand model.** -/
+theorem ThickPoints_next_src_eq_model (it : ThickPointsIt) :
+    tpView (ThickSrc.ThickPoints_Iterator_next loopFuel it) = it.next := by
+  unfold ThickPointsIt.next
+  rw [← tpStep_loop loopFuel it]
+  unfold ThickSrc.ThickPoints_Iterator_next
+  rw [while_loop_congr _ tpStep ?h]
+  case h =>
+    intro s
+    unfold tpStep
+    simp only [Bresenham_next_src_eq_model, ParallelsIterator_next_src_eq_model]
+    thick_simp []
+    rcases Nat.eq_zero_or_pos s.parallelPointsRemaining with hr | hr
+    · simp only [hr, Nat.lt_irrefl, decide_false, Bool.false_eq_true, ↓reduceIte, gt_iff_lt]
+      cases hx : s.iter.next with
+      | none => rfl
+      | some r =>
+        obtain ⟨v, iter⟩ := r
+        cases v with
+        | none => rfl
+        | some q =>
+          obtain ⟨parallel, lineType⟩ := q
+          cases lineType <;> simp
+    · have h1 : s.parallelPointsRemaining ≠ 0 := by omega
+      simp [hr, h1]
+  congr 1
+
+/-! ### the collected stroke -/
+
+/-- What a `for` loop collects from the regenerated `ThickPoints` iterator within a step budget (`none` = a fuel or the
+budget ran out; the list is never silently truncated): the hand model's `drainFuel` over the regenerated `next`. -/
+def srcDrain : Nat → ThickPointsIt → Option (List Pt)
+  | 0, _ => none
+  | n + 1, it =>
+    match ThickSrc.ThickPoints_Iterator_next loopFuel it with
+    | none => none
+    | some (none, _) => some []
+    | some (some p, it') =>
+      match srcDrain n it' with
+      | none => none
+      | some ps => some (p :: ps)
+
+theorem srcDrain_src_eq_model : ∀ (n : Nat) (it : ThickPointsIt), srcDrain n it = it.drainFuel n := by
+  intro n
+  induction n with
+  | zero => intro it; rfl
+  | succ n ih =>
+    intro it
+    have h := ThickPoints_next_src_eq_model it
+    unfold srcDrain ThickPointsIt.drainFuel
+    rw [← h]
+    cases ThickSrc.ThickPoints_Iterator_next loopFuel it with
+    | none => rfl
+    | some r =>
+      obtain ⟨v, it'⟩ := r
+      cases v with
+      | none => rfl
+      | some p =>
+        simp only [tpView, Option.map_some, ih it']
+        cases ThickPointsIt.drainFuel n it' <;> rfl
+
+/-- The pixels of a stroked line collected from the regenerated `ThickPoints::new` + `Iterator::next`
+(`StyledPixelsIterator::new` of styled.rs, which is NOT regenerated: no pixel for width 0, otherwise
+`ThickPoints::new(line, stroke_width.saturating_as())`, transcribed as in the hand model `Thick.thickPoints`). -/
+def srcThickPoints (l : Line) (w : Nat) : Option (List Pt) :=
+  match ThickSrc.ThickPoints_new loopFuel l (satAsI32 w) with
+  | none => none
+  | some it => if w = 0 then some [] else srcDrain (pixelBudget l it.iter.thicknessThreshold) it
+
+/-- **The regenerated thick-line iterator yields the hand model's `thickPoints`**, every line and width. -/
+theorem thick_points_src_eq_model (l : Line) (w : Nat) : srcThickPoints l w = Thick.thickPoints l w := by
+  unfold srcThickPoints Thick.thickPoints
+  rw [ThickPoints_new_src_eq_model]
+  cases ThickPointsIt.new l (satAsI32 w) with
+  | none => rfl
+  | some it => simp only [srcDrain_src_eq_model]
+
+/-! ### C17's stroked-line theorems, restated over the regenerated functions -/
+
+/-- The regenerated stroke is total: no fuel and no budget is ever exhausted. -/
+theorem src_thick_points_total (l : Line) (w : Nat) : ∃ ps, srcThickPoints l w = some ps := by
+  rw [thick_points_src_eq_model]; exact thick_points_total l w
+
+/-- For width 1 the regenerated stroked line equals the regenerated `points()` (same points, same order). -/
+theorem src_thick_width1_eq_points (l : Line) : srcThickPoints l 1 = some (srcPoints l) := by
+  rw [thick_points_src_eq_model, points_src_eq_model]; exact thick_width1_eq_points l
+
+/-- A regenerated stroked line of width `w ≥ 1` contains the regenerated thin line: its pixel sequence starts with
+`points()`. -/
+theorem src_thick_contains_thin (l : Line) (w : Nat) (hw : 1 ≤ w) (hw2 : w ≤ 2147483647)
+    (ps : List Pt) (h : srcThickPoints l w = some ps) :
+    (∃ more, ps = srcPoints l ++ more) ∧ ∀ p ∈ srcPoints l, p ∈ ps := by
+  rw [thick_points_src_eq_model] at h
+  rw [points_src_eq_model]
+  exact thick_contains_thin l w hw hw2 ps h
+
+example : (1 : Nat) ≤ 3 ∧ (3 : Nat) ≤ 2147483647 ∧
+    srcThickPoints ⟨⟨2, 2⟩, ⟨6, 4⟩⟩ 3 =
+      some [⟨2, 2⟩, ⟨3, 2⟩, ⟨4, 3⟩, ⟨5, 3⟩, ⟨6, 4⟩, ⟨2, 1⟩, ⟨3, 1⟩, ⟨4, 2⟩, ⟨5, 2⟩, ⟨6, 3⟩,
+            ⟨2, 3⟩, ⟨3, 3⟩, ⟨4, 4⟩, ⟨5, 4⟩, ⟨3, 0⟩, ⟨4, 1⟩, ⟨5, 1⟩, ⟨6, 2⟩, ⟨7, 2⟩] := by decide
+
+/-- Stroke width 0 draws nothing. -/
+theorem src_thick_width0_empty (l : Line) : srcThickPoints l 0 = some [] := by
+  rw [thick_points_src_eq_model]; exact thick_width0_empty l
+
+/-- The mechanism of the known finding (wide strokes are too wide), part 1, over the regenerated `next`: one call that
+returns a parallel adds exactly ONE perpendicular step's thickness to the accumulator, however many perpendicular steps
+the regenerated `next_parallel` took to find it. -/
+theorem src_next_adds_one_step (it it' : Thick.ParallelsIterator) (b : Bresenham) (ty : Thick.ParallelLineType)
+    (h : ThickSrc.ParallelsIterator_Iterator_next loopFuel it = some (some (b, ty), it')) :
+    it'.perpendicularParameters = it.perpendicularParameters ∧
+    it'.thicknessAccumulator = it.thicknessAccumulator +
+      (match ty with
+       | .normal => it.perpendicularParameters.errorStep.minor
+       | .extra => it.perpendicularParameters.errorStep.major) := by
+  have h' := h
+  rw [ParallelsIterator_next_src_eq_model] at h'
+  have := next_adds_one_step it it' b ty h'
+  cases ty <;> exact this
+
+example : ((ThickSrc.ParallelsIterator_new loopFuel ⟨⟨0, 0⟩, ⟨2, 1⟩⟩ 37 .none).bind
+    (ThickSrc.ParallelsIterator_Iterator_next loopFuel)).bind (·.1) = some (⟨⟨0, 0⟩, 0⟩, .normal) := by decide
+
+/-- Part 2, over the regenerated `next_parallel`: an `Extra` perpendicular point whose parallel error does not wrap is
+skipped - the side's start point moves, the accumulator does not. -/
+theorem src_skipped_step_not_counted (fuel : Nat) (it : Thick.ParallelsIterator)
+    (hx : it.left.error > it.perpendicularParameters.errorThreshold)
+    (hflip : it.flip = false)
+    (hw : (LineSrc.BresenhamParameters_increase_error it.parallelParameters it.leftError).1 = false) :
+    ThickSrc.ParallelsIterator_next_parallel (fuel + 1) it .left =
+      ThickSrc.ParallelsIterator_next_parallel fuel
+        { it with
+          left := ⟨it.left.point + it.perpendicularParameters.positionStep.minor,
+                   it.left.error - it.perpendicularParameters.errorStep.minor⟩
+          leftError := (LineSrc.BresenhamParameters_increase_error it.parallelParameters it.leftError).2 } .left := by
+  rw [increase_error_src_eq_model] at hw ⊢
+  simp only [next_parallel_src_eq_model]
+  exact skipped_step_not_counted fuel it hx hflip hw
+
+example : skipState.left.error > skipState.perpendicularParameters.errorThreshold ∧ skipState.flip = false ∧
+    (LineSrc.BresenhamParameters_increase_error skipState.parallelParameters skipState.leftError).1 = false := by decide
+
+/-- Every function of the impls of `ParallelsIterator`, `ThickPoints`, `LineSide` is translated. -/
+theorem thick_untranslated_pinned : ThickSrc.untranslated = [] := by decide
 
 end EG.C17.Src
